@@ -13,7 +13,8 @@ theorem inv_taskEnd {s : St} {t p : Nat} {tp : Tp} (h : Inv s) (hbt : s.bases[t]
   obtain ⟨hpl, _⟩ := List.getElem?_eq_some_iff.1 htp
   refine { len1 := ?len1, len2 := ?len2, cnt := ?cnt, tokM := ?tokM, notSt := ?notSt, wIdle := ?wIdle, mIdle := ?mIdle,
            taskSt := ?taskSt, taskCnt := ?taskCnt, cbFwd := ?cbFwd, cbBack := ?cbBack, addFwd := ?addFwd,
-           addBack := ?addBack, nFwd := ?nFwd, nBack := ?nBack, allOut := ?allOut, leaving := ?leaving }
+           addBack := ?addBack, nFwd := ?nFwd, nBack := ?nBack, len3 := ?len3, nIdle := ?nIdle, nNodup := ?nNodup,
+           allOut := ?allOut, leaving := ?leaving }
   all_goals try (keep h)
   case len1 => simpa [tick] using h.len1
   case len2 => simpa [tick] using h.len2
@@ -80,6 +81,8 @@ theorem inv_taskEnd {s : St} {t p : Nat} {tp : Tp} (h : Inv s) (hbt : s.bases[t]
     · exact h.addBack q x hx' hxs
   case nFwd => exact nf_set h.nFwd htp (by rw [hst]; simp)
   case nBack => exact nb_set h.nBack (by simp [hst])
+  case len3 => simpa [tick] using h.len3
+  case nIdle => exact nIdle_set h hbt (Or.inl (by intro m e; cases e))
   case leaving =>
     intro hm
     have := (all_idle h (Or.inl hm) t htl).1
@@ -96,7 +99,8 @@ theorem inv_detect {s : St} {t p : Nat} {tp : Tp} (h : Inv s) (htp : s.tps[p]? =
   have hcnt0 : s.bases.count (Base.task p) = 0 := by have := h.taskCnt p tp htp; omega
   refine { len1 := ?len1, len2 := ?len2, cnt := ?cnt, tokM := ?tokM, notSt := ?notSt, wIdle := ?wIdle, mIdle := ?mIdle,
            taskSt := ?taskSt, taskCnt := ?taskCnt, cbFwd := ?cbFwd, cbBack := ?cbBack, addFwd := ?addFwd,
-           addBack := ?addBack, nFwd := ?nFwd, nBack := ?nBack, allOut := ?allOut, leaving := ?leaving }
+           addBack := ?addBack, nFwd := ?nFwd, nBack := ?nBack, len3 := ?len3, nIdle := ?nIdle, nNodup := ?nNodup,
+           allOut := ?allOut, leaving := ?leaving }
   all_goals try (keep h)
   case len1 => simpa [tick] using h.len1
   case len2 => simpa [tick] using h.len2
@@ -168,10 +172,12 @@ theorem inv_detect {s : St} {t p : Nat} {tp : Tp} (h : Inv s) (htp : s.tps[p]? =
     · exact h.addBack q x hx' hxs
   case nFwd => exact nf_set h.nFwd htp (by rw [hst]; simp)
   case nBack => exact nb_set h.nBack (by simp)
+  case len3 => simpa [tick] using h.len3
+  case nIdle => exact nIdle_set h hbt (Or.inr (Or.inr ⟨p, rfl⟩))
   case leaving => intro hm; exact (canExec_not_out h hc (Or.inl hm)).elim
 
 theorem inv_dec {s : St} {t p : Nat} {tp : Tp} (h : Inv s) (hbt : s.bases[t]? = some (.cb p))
-    (hsu : s.subs[t]? = some .none) (htp : s.tps[p]? = some tp) :
+    (hsu : s.subs[t]? = some .none) (htp : s.tps[p]? = some tp) (hne : s.nests[t]? = some []) :
     Inv (tick { s with active := s.active - 1, bases := s.bases.set t .idle,
                        tps := s.tps.set p { tp with st := .done, decAt := s.clock } }) := by
   obtain ⟨hst, hby⟩ : tp.st = .inCb ∧ tp.by_ = t := by
@@ -185,7 +191,8 @@ theorem inv_dec {s : St} {t p : Nat} {tp : Tp} (h : Inv s) (hbt : s.bases[t]? = 
     rw [hbt] at this; cases this
   refine { len1 := ?len1, len2 := ?len2, cnt := ?cnt, tokM := ?tokM, notSt := ?notSt, wIdle := ?wIdle, mIdle := ?mIdle,
            taskSt := ?taskSt, taskCnt := ?taskCnt, cbFwd := ?cbFwd, cbBack := ?cbBack, addFwd := ?addFwd,
-           addBack := ?addBack, nFwd := ?nFwd, nBack := ?nBack, allOut := ?allOut, leaving := ?leaving }
+           addBack := ?addBack, nFwd := ?nFwd, nBack := ?nBack, len3 := ?len3, nIdle := ?nIdle, nNodup := ?nNodup,
+           allOut := ?allOut, leaving := ?leaving }
   all_goals try (keep h)
   case len1 => simpa [tick] using h.len1
   case len2 => simpa [tick] using h.len2
@@ -254,6 +261,8 @@ theorem inv_dec {s : St} {t p : Nat} {tp : Tp} (h : Inv s) (hbt : s.bases[t]? = 
     · exact h.addBack q x hx' hxs
   case nFwd => exact nf_set h.nFwd htp (by rw [hst]; simp)
   case nBack => exact nb_set h.nBack (by simp)
+  case len3 => simpa [tick] using h.len3
+  case nIdle => exact nIdle_set h hbt (Or.inr (Or.inl hne))
   case allOut => intro hm hw; exact (hbusy (Or.inr ⟨hm, hw⟩)).elim
   case leaving => intro hm; exact (hbusy (Or.inl hm)).elim
 
